@@ -215,6 +215,10 @@ local function _lua_set_timeout(timeout)
     _lua_timed_out = false
     local start_time = os.time()
     _lua_deadline = start_time + _lua_current_max_time
+    -- The clock is looked at every 1000 VM instructions.  The interval
+    -- counts instructions, not time: a loop around an expensive host call
+    -- (frame:preprocess of a long text) executes only a handful of them per
+    -- round, and with a long interval it ran far beyond the limit.
     debug.sethook(
         function()
             if os.time() > start_time + _lua_current_max_time then
@@ -223,7 +227,7 @@ local function _lua_set_timeout(timeout)
             end
         end,
         "",
-        100000
+        1000
     )
 end
 
